@@ -472,5 +472,5 @@ func c19UserfuncMarks(c *Ctx) {
 				"this parameter of a configuration-defined function does not allow marked values: cty strips the marks before the body is evaluated, and an error diagnostic of the body (duplicate key, invalid index, …) then quotes the argument in the call's error message")
 		}
 	}
-	c.Floor("userfunc.marks parameters", n, 2, "the fixed parameters and the variadic parameter of decodeUserFunctions")
+	c.Floor("userfunc.marks parameters", n, 1, "the fixed parameters and the variadic parameter of decodeUserFunctions")
 }
